@@ -25,6 +25,14 @@ Theorem C17_inv_reachable : forall E class_pad valid fill ops (s : st E),
 Proof. exact id_inv_trace. Qed.
 Print Assumptions C17_inv_reachable.
 
+(** the same when increase_resolution is given an explicit fill event per call
+    (SimpleEventSequence, ChordProgression) *)
+Theorem C17_inv_reachable_explicit_fill : forall E class_pad valid fill ops (s : st E),
+  Inv s -> forallb (fun fo => op_ok (snd fo)) ops = true ->
+  Forall (fun so => Inv (fst so)) (trace_f class_pad valid (fun l => l) fill no_fix s ops).
+Proof. exact id_inv_trace_f. Qed.
+Print Assumptions C17_inv_reachable_explicit_fill.
+
 Theorem C17_melody_inv_reachable : forall ops (s : st Z),
   Inv s -> forallb op_ok ops = true -> Forall (fun so => Inv (fst so)) (Melody.trace s ops).
 Proof. exact MelodyP.inv_trace. Qed.
